@@ -223,6 +223,19 @@ def run_divide(st, opts):
         check_operands(cfg, st, tt, [x], snap, ["x"], problems)
         if not torch.equal(project.dense(q.cores) * 4.0, xd) and rel_err(project.dense(q.cores) * 4.0, xd) > 8 * U64:
             problems.append(mk_problem("C13", "scalar", cfg, "x / 4.0 is not exact", st))
+        # ... for every kind of scalar, and a division that follows it still divides the same x (history: h = x / s; w = x / y)
+        for sname, sv in (("int 4", 4), ("1-element tensor", torch.tensor(4.0, dtype=dt))):
+            q2 = x / sv
+            if not torch.equal(project.dense(q2.cores), project.dense(q.cores)):
+                problems.append(mk_problem("C13", "scalar", cfg, "x / 4 (%s) differs from the quotient x / 4.0 computed before it" % sname, st))
+        try:
+            with quiet():
+                w = x / y
+            err = rel_err(project.dense(w.cores) * yd, xd)
+            if err > TOL["C13"] * 1e-12 + 1e4 * U64:
+                problems.append(mk_problem("C13", "accuracy", cfg, "x / y after x / scalar: ||q*y - x||/||x|| = %.3g > %g*1e-12" % (err, TOL["C13"]), st))
+        except Exception as ex:  # noqa
+            problems.append(mk_problem("C13", "exception", cfg, "x / y after x / scalar raised %s: %s" % (type(ex).__name__, str(ex)[:200]), st, {"exc": type(ex).__name__}))
     stats["nontrivial"] = 1 if d >= 2 and cfg["r"] >= 2 else 0
     return {"problems": problems, "stats": stats, "sample": {"cfg": cfg}, "artifacts": dtraces}
 
